@@ -64,6 +64,48 @@ def label_key(engine, st, type_label, executor_name):
     return f(t, executor_name)
 
 
+def track_clause(engine, st, fut_val, type_label, name_val):
+    """C20 `futures created per type`: the future handed out went through track_future exactly once, labelled with the layer's type and the
+    executor's name (what track_future then does is the contract of metrics.track_future, unit in contracts/c_misc.py)."""
+    tr = [e for e in st.trace if e.kind == "track"]
+    ok = len(tr) == 1 and set(tr[0].kwargs) == {"type", "executor"} and tr[0].kwargs.get("type") == type_label
+    return ("the future handed out is counted once (track_future) as a %r future of this executor" % type_label, "PC",
+            z3.And(z3.BoolVal(ok), tr[0].args[0] == fut_val if ok else False, engine.to_val(st, tr[0].kwargs["executor"]) == name_val if ok else False), ["C20"])
+
+
+class StopFlags(object):
+    """The two monotone flags every worker loop tests at the top of an iteration: the executor's own shutdown flag and the
+    interpreter-exit flag.  `install` adds their monotonicity to the unit's rely (both are only ever set to True: static writer sets of
+    helpers.ShutdownHelper.is_shutdown and event.ShutdownAwareEventHandler.shutdown)."""
+    def __init__(self, engine, st, ex, helper_field="_shutdown"):
+        self.hid = Val.id(st.get(helper_field, Val.id(ex.t)))
+        self.gid = z3.IntVal(700000 + STRINGS.get("GLOBAL_HANDLER"))
+        st.assume(Val.is_boolv(st.get("is_shutdown", self.hid)))
+        st.assume(Val.is_boolv(st.get("shutdown", self.gid)))
+        self.pre = self.now(st)
+
+    def now(self, st):
+        return z3.Or(Val.b(st.get("is_shutdown", self.hid)), Val.b(st.get("shutdown", self.gid)))
+
+    def install(self, cfg):
+        prev = getattr(cfg, "after_interfere", None)
+
+        def rely(engine, st, old, why):
+            if prev:
+                prev(engine, st, old, why)
+            for name, oid in (("is_shutdown", self.hid), ("shutdown", self.gid)):
+                if name in old:
+                    st.assume(z3.Implies(Val.b(z3.Select(old[name], oid)), Val.b(st.get(name, oid))))
+                    st.assume(Val.is_boolv(st.get(name, oid)))
+        cfg.after_interfere = rely
+
+    def clauses(self, st, stopped, props, what):
+        if stopped:
+            return [("%s stops only when the executor has been shut down or the interpreter is exiting" % what, "PC", self.now(st), props)]
+        return [("%s goes on only if, when it started, neither the executor had been shut down nor the interpreter was exiting "
+                 "(a worker never does another round of work after shutdown)" % what, "PC", z3.Not(self.pre), props)]
+
+
 def metrics_object(engine, st):
     """`metrics` module global: every attribute is a metric family (ghost counters, C20)."""
     return Z(ref(700000 + STRINGS.get("metrics")), "metrics")
